@@ -341,16 +341,20 @@ theorem Sub.arg {op : Op} {args : List Term} {p : Payload} (hwf : (Term.node op 
 theorem Sub.trans {t x y : Term} (h1 : Sub t x) (h2 : Sub x y) : Sub t y :=
   ⟨h2.wf, fun I hd => h2.div0 I (h1.div0 I hd), fun s hs => h1.fv s (h2.fv s hs)⟩
 
-/-- everything the rules use about a well-formed array-value node with a scalar index sort that
-satisfies the `ARRAY_VALUE` invariant -/
-structure AVFacts (A : Term) (idx e : Ty) (d : Term) (rest : List Term) : Prop where
+/-- everything the rules use about a well-formed array-value node with a scalar index sort whose keys
+are constants -/
+structure AVFacts0 (A : Term) (idx e : Ty) (d : Term) (rest : List Term) : Prop where
   dsub : Sub A d
   dty : d.typeOf = some e
   psub : ∀ kv ∈ pairs rest, Sub A kv.1 ∧ Sub A kv.2
   pty : ∀ kv ∈ pairs rest, kv.1.typeOf = some idx ∧ kv.2.typeOf = some e
   keyT : ∀ kv ∈ pairs rest, KeyT kv.1
-  nodup : noDup ((pairs rest).map (·.1)) = true
   flat : rest = (pairs rest).flatMap (fun kv => [kv.1, kv.2])
+
+/-- … that satisfies the `ARRAY_VALUE` invariant (the keys are also pairwise distinct) -/
+structure AVFacts (A : Term) (idx e : Ty) (d : Term) (rest : List Term) : Prop
+    extends AVFacts0 A idx e d rest where
+  nodup : noDup ((pairs rest).map (·.1)) = true
 
 theorem mem_of_mem_pairs : ∀ {rest : List Term} {kv : Term × Term}, kv ∈ pairs rest → kv.1 ∈ rest ∧ kv.2 ∈ rest
   | k :: v :: rest, kv, h => by
@@ -360,11 +364,11 @@ theorem mem_of_mem_pairs : ∀ {rest : List Term} {kv : Term × Term}, kv ∈ pa
     · have := mem_of_mem_pairs h
       exact ⟨by simp [this.1], by simp [this.2]⟩
 
-theorem avFacts {idx e : Ty} {d : Term} {rest : List Term} {q : Payload}
+theorem avFacts0 {idx e : Ty} {d : Term} {rest : List Term} {q : Payload}
     (hwf : (Term.node .arrayValue (d :: rest) q).wf = true)
     (hty : (Term.node .arrayValue (d :: rest) q).typeOf = some (.array idx e))
-    (hidx : idx.scalar = true) (hk : keysOK rest = true) :
-    q = .ty idx ∧ AVFacts (.node .arrayValue (d :: rest) q) idx e d rest := by
+    (hidx : idx.scalar = true) (hk : ∀ kv ∈ pairs rest, isConstant kv.1 = true) :
+    q = .ty idx ∧ AVFacts0 (.node .arrayValue (d :: rest) q) idx e d rest := by
   obtain ⟨idx', e', d', rest', rfl, hargs, hd, hc, hτ⟩ := typeOf_arrayValue_inv hty
   cases hargs
   cases hτ
@@ -372,18 +376,26 @@ theorem avFacts {idx e : Ty} {d : Term} {rest : List Term} {q : Payload}
   obtain ⟨hp, hflat⟩ := chk_pairs idx e rest hc
   have hsub : ∀ x ∈ d :: rest, Sub (.node .arrayValue (d :: rest) (.ty idx)) x :=
     fun x hx => Sub.arg hwf (by simp) (by simp) rfl hx
-  simp only [keysOK, Bool.and_eq_true, List.all_eq_true] at hk
-  refine ⟨hsub d (by simp), hd, ?_, hp, ?_, hk.2, hflat⟩
+  refine ⟨hsub d (by simp), hd, ?_, hp, ?_, hflat⟩
   · intro kv hkv
     have := mem_of_mem_pairs hkv
     exact ⟨hsub _ (by simp [this.1]), hsub _ (by simp [this.2])⟩
   · intro kv hkv
     have hm := mem_of_mem_pairs hkv
     have hw : kv.1.wf = true := (hsub _ (by simp [hm.1])).wf
-    exact ⟨hw, isConstant_scalar (hp kv hkv).1 hidx (hk.1 kv.1 (List.mem_map_of_mem (f := (·.1)) hkv))⟩
+    exact ⟨hw, isConstant_scalar (hp kv hkv).1 hidx (hk kv hkv)⟩
+
+theorem avFacts {idx e : Ty} {d : Term} {rest : List Term} {q : Payload}
+    (hwf : (Term.node .arrayValue (d :: rest) q).wf = true)
+    (hty : (Term.node .arrayValue (d :: rest) q).typeOf = some (.array idx e))
+    (hidx : idx.scalar = true) (hk : keysOK rest = true) :
+    q = .ty idx ∧ AVFacts (.node .arrayValue (d :: rest) q) idx e d rest := by
+  simp only [keysOK, Bool.and_eq_true, List.all_eq_true] at hk
+  obtain ⟨hq, F⟩ := avFacts0 hwf hty hidx (fun kv hkv => hk.1 kv.1 (List.mem_map_of_mem (f := (·.1)) hkv))
+  exact ⟨hq, ⟨F, hk.2⟩⟩
 
 /-- the meaning of an array-value node that satisfies the invariant -/
-theorem AVFacts.sem {A : Term} {idx e : Ty} {d : Term} {rest : List Term} (h : AVFacts A idx e d rest)
+theorem AVFacts0.sem {A : Term} {idx e : Ty} {d : Term} {rest : List Term} (h : AVFacts0 A idx e d rest)
     (hidx : idx.scalar = true) (I : Interp) (hI : I.WF) :
     Val.CanonV idx (Sem.arrayValue idx (eval I d) (rest.map (eval I))) ∧
     (∀ j, j.hasSort idx = true → (Sem.arrayValue idx (eval I d) (rest.map (eval I))).select j =
@@ -518,7 +530,7 @@ theorem walkArraySelect_ok : RuleOK .arraySelect { rule := walkArraySelect, guar
             · exact ⟨hA.trans (F.psub kv hkv).2, (F.pty kv hkv).2⟩
           refine ⟨hsub.2, hsub.1.wf, fun I hI hd => ⟨?_, hsub.1.div0 I hd⟩, hsub.1.fv⟩
           rw [← hR, lookup_find I d i hiK (pairs rest) F.keyT, eval_select, eval_arrayValue]
-          exact ((F.sem hidx I hI).2.1 (eval I i) (eval_hasSort i hiK.1 idx hi I hI)).symm
+          exact ((F.toAVFacts0.sem hidx I hI).2.1 (eval I i) (eval_hasSort i hiK.1 idx hi I hI)).symm
         · exact hself
     · exact hself
 
@@ -584,7 +596,7 @@ theorem walkArrayStore_ok : RuleOK .arrayStore { rule := walkArrayStore, guard :
           obtain ⟨r1, r2, r3, r4⟩ := array_res (hN.trans F.dsub) F.dty hps
           refine ⟨r1, r2, fun I hI hd => ⟨?_, r3 I hd⟩, r4⟩
           obtain ⟨c1, c2, c3⟩ := array_eval hidx (d := d) hkeys (noDup_dictSet _ i v F.nodup) I hI
-          obtain ⟨a1, a2, a3⟩ := F.sem hidx I hI
+          obtain ⟨a1, a2, a3⟩ := F.toAVFacts0.sem hidx I hI
           have hik : (eval I i).hasSort idx = true := eval_hasSort i hiK.1 idx hi I hI
           obtain ⟨s1, s2, s3⟩ := Val.CanonV.store (keyOrd idx hidx) (eval I v) a1 hik
           rw [eval_store, eval_arrayValue]
@@ -612,7 +624,7 @@ theorem walkArrayValue_ok : RuleOK .arrayValue { rule := walkArrayValue, guard :
     obtain ⟨r1, r2, r3, r4⟩ := array_res F.dsub F.dty (fun kv hkv => ⟨F.psub kv hkv, F.pty kv hkv⟩)
     refine ⟨r1, r2, fun I hI hd => ⟨?_, r3 I hd⟩, r4⟩
     obtain ⟨c1, c2, c3⟩ := array_eval hidx (d := d) (fun kv hkv => ⟨F.keyT kv hkv, (F.pty kv hkv).1⟩) F.nodup I hI
-    obtain ⟨a1, a2, a3⟩ := F.sem hidx I hI
+    obtain ⟨a1, a2, a3⟩ := F.toAVFacts0.sem hidx I hI
     rw [eval_arrayValue]
     refine Val.CanonV.ext (keyOrd idx hidx) c1 a1 (fun hn => ?_) (fun j hj => ?_)
     · rw [c3 hn, a3 hn]
